@@ -121,8 +121,12 @@ def write_main(q, outd, ret_void=True):
     open(tmp, 'w').write('''#include "vp_rt.h"
 void F_%s(void);
 int main(void) { vp_rt_init(); vp_init_globals(); F_%s();
+  /* an exception that leaves the harness entry is std::terminate in the real program: never a silent pass of the assertions it skipped */
 #ifdef VP_WITNESS
+  VP_ASSUME(!vp_exc_pending);
   __CPROVER_assert(0, "witness.reached_end");
+#else
+  VP_CHECK(!vp_exc_pending, "exc.uncaught_exception_escapes_harness");
 #endif
   return 0; }
 ''' % (q.entry, q.entry))
@@ -198,7 +202,7 @@ def parse_results(out):
     return res, status
 
 def classify(desc):
-    if desc.startswith(('prop.', 'ub.', 'alloc.', 'env.', 'witness.')): return desc.split(':')[0] if desc.startswith('env.unmodelled') else desc
+    if desc.startswith(('prop.', 'ub.', 'alloc.', 'env.', 'witness.', 'exc.')): return desc.split(':')[0] if desc.startswith('env.unmodelled') else desc
     if desc.startswith('unwinding assertion'): return 'unwind'
     if 'recursion' in desc: return 'unwind'
     return 'mem.' + re.sub(r'\s+', '_', desc.split(' in ')[0])[:60]
@@ -502,7 +506,7 @@ def check(pid, tier, only=None, keep=False, jobs=None, list_only=False):
                 os.makedirs(rdir, exist_ok=True)
                 rp = os.path.join(rdir, re.sub(r'[^A-Za-z0-9_.-]', '_', rec['query'] + '.' + f['label']) + '.json')
                 json.dump(dict(property=pid, query=rec['query'], src=q.src, defs=q.defs, entry=q.entry, rt=q.rt, params=q.params, label=f['label'],
-                               description=f['description'], inputs=f['inputs'], native=f['native'], native_tail=f['native_tail']), open(rp, 'w'), indent=1)
+                               description=f['description'], inputs=f['inputs'], native=f['native'], native_tail=f['native_tail'], memcheck=bool(q.memcheck)), open(rp, 'w'), indent=1)
                 violations.append((rec['query'], f['label'], rp))
             elif f['status'] == 'shadowed':
                 pass
@@ -599,6 +603,7 @@ def selftest(pid, only=None, nvec=6, jobs=8):
             env = dict(os.environ, VP_PARAMS=','.join(str(int(p)) for p in q.params), ASAN_OPTIONS='detect_leaks=0')
             a = sh([exe_g, inp], timeout=60, env=env); b = sh([exe_n, q.entry, inp], timeout=60, env=env)
             la = (re.findall(r'VP_\w+[^\n]*', a['out']) or ['?'])[-1]; lb = (re.findall(r'VP_\w+[^\n]*', b['out']) or ['?'])[-1]
+            if lb == '?' and 'terminate called' in b['err']: lb = 'VP_UNCAUGHT_EXCEPTION'
             if la != lb: diffs += 1; last = (la, lb)
         return (q.name, 'ok' if diffs == 0 else 'DIFF %d/%d %r' % (diffs, len(vecs), last), '')
     bad = 0
@@ -624,6 +629,10 @@ def replay(path):
     nr = run_native(exe, r['entry'], r['inputs'], params=r.get('params', []))
     print(nr['out'][-3000:]); print(nr['err'][-3000:])
     c = replay_confirms(nr, r['label'])
+    if not c and r.get('memcheck'):
+        exe2 = build_native(r['src'], r['defs'], r.get('rt', []), d, tag='native_memcheck', flags=MEMCHECK_FLAGS)
+        nr2 = run_native(exe2, r['entry'], r['inputs'], timeout=300, params=r.get('params', []), wrapper=['valgrind', '-q', '--error-exitcode=79', '--num-callers=30'])
+        print(nr2['err'][-3000:]); c = memcheck_confirms(nr2)
     print('REPRODUCED: %s' % c if c else 'not reproduced')
     shutil.rmtree(d, ignore_errors=True)
     return 1 if c else 0
